@@ -210,6 +210,9 @@ def task(case):
     from contracts import c15_prune
     from metapype.eml import validate
     w = rule_world()
+    if case == "first-loop":
+        con = c15_prune.install_first_loop(w)
+        return Task(w, validate.prune, con, name="C15/prune[children the rule does not permit]", goal_timeout_ms=8000).run()
     if case == "clean":
         con = c15_prune.install_clean(w)
         return Task(w, validate.prune, con, name="C15/prune[a clean tree is left alone]").run()
@@ -219,7 +222,7 @@ def task(case):
 
 def main(tier, seed):
     t0 = time.time()
-    results = common.run_tasks([("props.C15", "task", {"case": c}) for c in ("metadata", "unknown", "clean")])
+    results = common.run_tasks([("props.C15", "task", {"case": c}) for c in ("metadata", "unknown", "clean", "first-loop")])
     b = bounded(tier, seed)
     return common.decide(PID, tier, seed, results, b, t0, "DESIGN.md §4 C15", extra_assumptions=[
         "proved: the two loop-free cases of prune (metadata node: nothing happens; unknown element: detached from its parent's list by "
@@ -229,6 +232,10 @@ def main(tier, seed):
         "is, nothing is reported and nothing is raised — the second half of 'pruning a second time removes nothing'",
         "validate.node and the rule table enter that proof abstractly (node_valid: what C04 proves of validate.node; rule_child_names_of: "
         "is_allowed_child is membership in the rule's child-name list, C17)",
-        "BOUNDED, not proved: that the first pruning establishes prune_clean and removes exactly the offending subtrees (disallowed children, "
+        "proved: prune on a known node whose own validation fails, up to the loop that recurses into the children: the loop over the snapshot removes "
+        "children the rule does not permit without raising; every child left in the list is permitted and is one of the old children; the ones still to "
+        "be looked at are still there in order; other nodes' lists are untouched; Forest / Linked / own-lists hold again; nodes of the subtrees not yet "
+        "looked at are still registered. From the recursion loop on prune is NOT VERIFIED in this case",
+        "BOUNDED, not proved: that the first pruning as a whole establishes prune_clean and removes exactly the offending subtrees (disallowed children, "
         "strict re-validation, exactness, order of kept nodes): all trees up to the stated size over a palette of valid / invalid / misplaced / "
         "unknown / permitted-but-unknown nodes, both modes"])
